@@ -96,7 +96,7 @@ class MapFiller(Visitor):
 
         """
 
-        if reg.is_fundamental:
+        if reg.fundamental:
             return reg
 
         raise JaqalError(
